@@ -197,8 +197,9 @@ async def _main(sim, sc, out):
         if len(chain_dels) != expect_invocations:
             if sim.clock.us >= horizon or len(chain_dels) > expect_invocations:
                 V.append(violation(
-                    "attempt-count", f"C04/{b}/executed-{len(chain_dels)}-expected-{expect_invocations}"
-                    f"{'-forced' if forced else ''}", id=jid, N=N, beh=[x.get('do') for x in j['beh']],
+                    "attempt-count", f"C04/{b}/executed-{'more' if len(chain_dels) > expect_invocations else 'fewer'}-times-than-expected"
+                    f"{'-forced' if forced else ''}", id=jid, N=N, executed=len(chain_dels), expected=expect_invocations,
+                    beh=[x.get('do') for x in j['beh']],
                     place=place_summary(insp, jid)))
             continue
         # every retry requeue: counter and back-off; next attempt not early
